@@ -170,7 +170,7 @@ def run(ctx):
     dspecs += [{"kind": "positional", "delta": 1.0},
                {"kind": "combined", "alpha": 1.0, "beta": 1.0, "delta": 1.0, "pos": None, "cat": None}]
     names = list(TRANSFORMS)
-    for i in range(ctx.scale(150, 1500)):
+    for i in range(ctx.scale(150, 5000)):
         if ctx.out_of_time():
             break
         dspec = rng.choice(dspecs)
